@@ -445,3 +445,24 @@ def k_int_rounding(a: int, big: bool) -> bool:
 @cond(pre=["len(x) <= 3", "all(0 <= i <= 2 for i in x)"], twin=True, timeout=60, covers="reachability twin: sort changes some inputs")
 def twin_sort(x: List[int]) -> bool:
     return ev("x | sort", x=x) == x
+
+
+def _warm() -> None:
+    """Parse every expression template at import (never under CrossHair's tracer)."""
+    import os
+
+    if os.environ.get("VF_WORKER") != "1":
+        return
+    from vf.cond import conditions_of
+    import sys
+
+    for c in conditions_of(sys.modules[__name__]):
+        if c.grid:
+            for pt in c.grid():
+                try:
+                    c.fn(*pt)
+                except Exception:  # noqa: BLE001
+                    pass
+
+
+_warm()
